@@ -108,7 +108,10 @@ func stormCall(w *World, kind string, rng *rand.Rand, h, ci int, feedDones *[]ch
 		if !ok {
 			return
 		}
-		switch rng.Intn(5) {
+		switch rng.Intn(6) {
+		case 5:
+			_ = vs.DeleteDDoc("dd")
+			_ = vs.PutDDoc(ctx, "dd", designDoc(map[string]ViewSpec{"v": {Emits: []string{"id|one"}}}))
 		case 0:
 			_ = vs.PutDDoc(ctx, "dd", designDoc(map[string]ViewSpec{"v": {Emits: []string{"id|one"}}}))
 		case 1:
@@ -357,6 +360,13 @@ func runCloseRaceScenario(c shutCase) (res shutResult) {
 	}
 	rng := rand.New(rand.NewSource(c.Seed))
 	rounds := 100 + c.After
+	if c.Seed%2 == 0 {
+		// half of the cases with seeded delays at the hook points (transaction begin / commit, ...):
+		// fewer rounds, wider windows
+		restore := noiseHook(c.Seed, w.Name)
+		defer restore()
+		rounds = 30 + c.After/4
+	}
 	var total atomic.Int64
 	for round := 0; round < rounds; round++ {
 		hx, oerr := rosmar.OpenBucket(w.URL, w.Name, rosmar.ReOpenExisting)
